@@ -1828,3 +1828,118 @@ Proof.
   intros h c gp cur0 gas0 p' H. apply all_exact_union. pose proof (K_invariant h _ _ (new_pool_K c gp cur0 gas0) H) as [HJ _].
   apply J_exact in HJ. apply HJ.
 Qed.
+
+(* ================================================================ caps_sound: costcap / gascap bound the list *)
+Lemma caps_sub : forall l l', caps_ok l -> incl (items l') (items l) -> costcap l' = costcap l -> gascap l' = gascap l -> caps_ok l'.
+Proof. unfold caps_ok. intros l l' H I C G. rewrite Forall_forall in *. intros x Hx. rewrite C, G. apply H. apply I. auto. Qed.
+Lemma tl_forward_caps : forall l th rm l', tl_forward l th = (rm, l') -> caps_ok l -> caps_ok l'.
+Proof. intros l th rm l' H C. unfold tl_forward in H. inversion H; subst. eapply caps_sub; eauto. cbn. intros x Hx. apply filter_In in Hx. tauto. Qed.
+Lemma tl_filter_caps : forall o l c g drops invs l', tl_filter o l c g = (drops, invs, l') -> caps_ok l ->
+  caps_ok l' /\ Forall (fun t => tcost t <= c /\ tgas t <= g) (items l').
+Proof.
+  intros o l c g drops invs l' H C. unfold tl_filter in H. destruct ((costcap l <=? c) && (gascap l <=? g)) eqn:Sc.
+  - inversion H; subst. split; auto. unfold caps_ok in C. rewrite Forall_forall in *. intros x Hx. specialize (C _ Hx). lia.
+  - set (bad := fun t => (c <? tcost t) || (g <? tgas t)) in *.
+    assert (G : forall x, In x (filter (fun t => negb (bad t)) (items l)) -> tcost x <= c /\ tgas x <= g).
+    { intros x Hx. apply filter_In in Hx. destruct Hx as [_ Hb]. unfold bad in Hb. lia. }
+    destruct (strict l); [destruct (filter bad (items l))|]; inversion H; subst; clear H; unfold caps_ok; cbn [items costcap gascap];
+      split; rewrite Forall_forall; intros x Hx; try (apply filter_In in Hx; destruct Hx as [Hx _]); apply G; auto.
+Qed.
+Lemma tl_cap_caps : forall l k drops l', tl_cap l k = Some (drops, l') -> caps_ok l -> caps_ok l'.
+Proof.
+  intros l k drops l' H C. unfold tl_cap in H. destruct (Z.of_nat (length (items l)) <=? k); [inversion H; subst; auto|].
+  destruct (k <? 0); [discriminate|]. inversion H; subst. eapply caps_sub; eauto. cbn. intros x Hx. eapply firstn_In; eauto.
+Qed.
+Lemma tl_remove_caps : forall o l t b invs l', tl_remove o l t = (b, invs, l') -> caps_ok l -> caps_ok l'.
+Proof.
+  intros o l t b invs l' H C. unfold tl_remove in H. destruct (tl_get l (tnonce t)); [|inversion H; subst; auto].
+  destruct (strict l); inversion H; subst; eapply caps_sub; eauto; cbn; intros x Hx; repeat (apply filter_In in Hx; destruct Hx as [Hx _]); auto.
+Qed.
+Lemma tl_ready_caps : forall l s ready l', tl_ready l s = (ready, l') -> caps_ok l -> caps_ok l' /\ incl ready (items l).
+Proof.
+  intros l s ready l' H C. unfold tl_ready in H. destruct (items l) as [|x r] eqn:E; [inversion H; subst; split; auto; intros y []|].
+  destruct (s <? tnonce x); [inversion H; subst; split; auto; intros y []|].
+  destruct (take_run (tnonce x) (x :: r)) as [a b] eqn:Er. inversion H; subst; clear H. pose proof (take_run_app _ _ _ _ Er) as Ha.
+  split; [eapply caps_sub; eauto; cbn; rewrite E, Ha; intros y Hy; apply in_or_app; auto|rewrite Ha; intros y Hy; apply in_or_app; auto].
+Qed.
+Lemma ins_in_weak : forall t l x, In x (ins_tx t l) -> x = t \/ In x l.
+Proof.
+  induction l as [|w l IH]; intros x Hx; cbn [ins_tx] in Hx; [destruct Hx as [->|[]]; auto|].
+  destruct (tnonce t <? tnonce w); [destruct Hx as [->|Hx]; auto|]. destruct (tnonce t =? tnonce w).
+  - destruct Hx as [->|Hx]; auto. right. right. auto.
+  - destruct Hx as [->|Hx]; [right; left; auto|]. destruct (IH _ Hx); auto. right. right. auto.
+Qed.
+Lemma tl_add_caps : forall l t bump b old l', tl_add l t bump = (b, old, l') -> caps_ok l -> caps_ok l'.
+Proof.
+  intros l t bump b old l' H C. unfold tl_add in H. destruct (match tl_get l (tnonce t) with Some o => _ | None => false end); inversion H; subst; auto.
+  unfold caps_ok in *. cbn [items costcap gascap]. rewrite Forall_forall in *. intros x Hx. apply ins_in_weak in Hx.
+  destruct Hx as [->|Hx]; [|specialize (C _ Hx)]; destruct (costcap l <? tcost t) eqn:E1; destruct (gascap l <? tgas t) eqn:E2; lia.
+Qed.
+Lemma caps_new : forall s, caps_ok (new_txlist s).
+Proof. intros s. unfold caps_ok. cbn. constructor. Qed.
+
+Lemma CS_same : forall p q, pending q = pending p -> queue q = queue p -> caps_sound p -> caps_sound q.
+Proof. intros p q Hp Hq H. unfold caps_sound in *. rewrite Hp, Hq. exact H. Qed.
+Lemma CS_qset : forall p q a l', caps_sound p -> caps_ok l' -> pending q = pending p -> queue q = assoc_set a l' (queue p) -> caps_sound q.
+Proof.
+  intros p q a l' [HP HQ] C Hp Hq. unfold caps_sound. rewrite Hp, Hq. split; auto. intros b l Hl.
+  destruct (Z.eq_dec b a) as [->|Hne]; [rewrite assoc_set_same in Hl; inversion Hl; subst; auto|rewrite assoc_set_other in Hl by auto; eauto].
+Qed.
+Lemma CS_pset : forall p q a l', caps_sound p -> caps_ok l' -> queue q = queue p -> pending q = assoc_set a l' (pending p) -> caps_sound q.
+Proof.
+  intros p q a l' [HP HQ] C Hq Hp. unfold caps_sound. rewrite Hp, Hq. split; auto. intros b l Hl.
+  destruct (Z.eq_dec b a) as [->|Hne]; [rewrite assoc_set_same in Hl; inversion Hl; subst; auto|rewrite assoc_set_other in Hl by auto; eauto].
+Qed.
+Lemma CS_qdel : forall p q a, caps_sound p -> pending q = pending p -> queue q = assoc_del a (queue p) -> caps_sound q.
+Proof.
+  intros p q a [HP HQ] Hp Hq. unfold caps_sound. rewrite Hp, Hq. split; auto. intros b l Hl.
+  destruct (Z.eq_dec b a) as [->|Hne]; [rewrite assoc_del_same in Hl; discriminate|rewrite assoc_del_other in Hl by auto; eauto].
+Qed.
+Lemma CS_pdel : forall p q a, caps_sound p -> queue q = queue p -> pending q = assoc_del a (pending p) -> caps_sound q.
+Proof.
+  intros p q a [HP HQ] Hq Hp. unfold caps_sound. rewrite Hp, Hq. split; auto. intros b l Hl.
+  destruct (Z.eq_dec b a) as [->|Hne]; [rewrite assoc_del_same in Hl; discriminate|rewrite assoc_del_other in Hl by auto; eauto].
+Qed.
+Lemma CS_list_of : forall p a s, caps_sound p -> caps_ok (list_of (queue p) a s) /\ caps_ok (list_of (pending p) a s).
+Proof.
+  intros p a s [HP HQ]. unfold list_of. split.
+  - destruct (assoc a (queue p)) eqn:E; [eauto|apply caps_new].
+  - destruct (assoc a (pending p)) eqn:E; [eauto|apply caps_new].
+Qed.
+
+Lemma enqueue_CS : forall p t, caps_sound p -> caps_sound (snd (enqueue_tx p t)) /\ pending (snd (enqueue_tx p t)) = pending p.
+Proof.
+  intros p t H. unfold enqueue_tx.
+  change (match assoc (tfrom t) (queue p) with Some l => l | None => new_txlist false end) with (list_of (queue p) (tfrom t) false).
+  destruct (CS_list_of p (tfrom t) false H) as [C0 _].
+  destruct (tl_add (list_of (queue p) (tfrom t) false) t (c_bump (conf p))) as [[ins old] l'] eqn:E.
+  pose proof (tl_add_caps _ _ _ _ _ _ E C0) as C1. destruct ins; cbn [snd].
+  - split; [|destruct old; reflexivity]. eapply CS_qset with (p := p) (l' := l'); auto; destruct old; reflexivity.
+  - split; [|reflexivity]. eapply CS_qset with (p := p); eauto; reflexivity.
+Qed.
+Lemma enqueue_fold_CS : forall ex p, caps_sound p ->
+  caps_sound (fold_left (fun q x => snd (enqueue_tx q x)) ex p) /\ pending (fold_left (fun q x => snd (enqueue_tx q x)) ex p) = pending p.
+Proof.
+  induction ex as [|x ex IH]; intros p H; cbn [fold_left]; auto. destruct (enqueue_CS p x H) as [H1 H2]. destruct (IH _ H1) as [H3 H4].
+  split; auto. congruence.
+Qed.
+Lemma promote_CS : forall p a t, caps_sound p -> caps_sound (promote_tx p a t) /\ queue (promote_tx p a t) = queue p.
+Proof.
+  intros p a t H. unfold promote_tx.
+  change (match assoc a (pending p) with Some l => l | None => new_txlist true end) with (list_of (pending p) a true).
+  destruct (CS_list_of p a true H) as [_ C0].
+  destruct (tl_add (list_of (pending p) a true) t (c_bump (conf p))) as [[ins old] l'] eqn:E.
+  pose proof (tl_add_caps _ _ _ _ _ _ E C0) as C1. destruct ins.
+  - assert (Hpq : pending (pn_set (set_beats (match assoc (thash t) (all (match old with Some ot => all_drop (set_pending p (assoc_set a l' (pending p))) (thash ot) | None => set_pending p (assoc_set a l' (pending p)) end)) with None => all_put (match old with Some ot => all_drop (set_pending p (assoc_set a l' (pending p))) (thash ot) | None => set_pending p (assoc_set a l' (pending p)) end) t | Some _ => (match old with Some ot => all_drop (set_pending p (assoc_set a l' (pending p))) (thash ot) | None => set_pending p (assoc_set a l' (pending p)) end) end) (assoc_set a (clock p + 1) (beats p)) (clock p + 1)) a ((tnonce t + 1) mod two64)) = assoc_set a l' (pending p)) by (destruct old; cbn; match goal with |- context [match ?X with _ => _ end] => destruct X end; reflexivity).
+    clear Hpq.
+    match goal with |- caps_sound ?Q /\ _ => assert (Hq : pending Q = assoc_set a l' (pending p) /\ queue Q = queue p)
+      by (destruct old; cbn; match goal with |- context [match ?X with _ => _ end] => destruct X end; split; reflexivity) end.
+    destruct Hq as [Hp Hq]. split; auto. eapply CS_pset with (p := p); eauto.
+  - split; [|reflexivity]. eapply CS_pset with (p := p); eauto; reflexivity.
+Qed.
+Lemma promote_fold_CS : forall a ready p, caps_sound p ->
+  caps_sound (fold_left (fun q t => promote_tx q a t) ready p) /\ queue (fold_left (fun q t => promote_tx q a t) ready p) = queue p.
+Proof.
+  induction ready as [|t ready IH]; intros p H; cbn [fold_left]; auto. destruct (promote_CS p a t H) as [H1 H2]. destruct (IH _ H1) as [H3 H4].
+  split; auto. congruence.
+Qed.
